@@ -246,6 +246,7 @@ func checkC01(r *core.Run) {
 	c01Rules(r, p, ev)
 	// the execution data handed to tapscript signature checks: the leaf hash is the BIP341 one and stays intact
 	c02LeafHash(r, p, "R-C01-rules")
+	c01HashTypeMasks(r, p)
 	c01Total(r, p, ev)
 }
 
@@ -541,5 +542,66 @@ func c01OpClass(r *core.Run, p *core.Program, ev *ssa.Function) {
 		r.Check(len(badK) == 0, rule, "op-success-list", p.Pos(f.Pos()), "the OP_SUCCESS predicate is true exactly for the BIP342 opcodes (256 values)", "the OP_SUCCESS predicate differs from BIP342 for opcodes "+strings.Join(badK, ","))
 	} else {
 		r.Fail(rule, "op-success-list", "-", "OP_SUCCESS predicate not found")
+	}
+}
+
+// c01HashTypeMasks: how a signature's hash-type byte selects what is signed. Legacy and segwit v0 decode
+// the output mode from the low five bits (0x1f) and ANYONECANPAY from 0x80, so undefined values such as
+// 0x06 mean ALL; taproot uses the two low bits (3) after having refused undefined values. A wrong mask
+// leaves every defined value (and so every test vector) unchanged and changes only the undefined ones.
+func c01HashTypeMasks(r *core.Run, p *core.Program) {
+	const rule = "R-C01-rules"
+	for _, x := range []struct {
+		fn    string
+		param int
+		want  string
+	}{
+		{"lib/btc.(*Tx).WitnessSigHash", 4, "128 31"},
+		{"lib/btc.(*Tx).SignatureHash", 3, "128 31"},
+		{"lib/btc.(*Tx).TaprootSigHash", 3, "128 3"},
+	} {
+		fn := p.Func(x.fn)
+		if fn == nil || len(fn.Params) <= x.param {
+			r.Fail(rule, "hash-type-masks/"+x.fn, "-", "function not found")
+			continue
+		}
+		ht := fn.Params[x.param]
+		masks := map[string]bool{}
+		var derived func(v ssa.Value, d int) bool
+		derived = func(v ssa.Value, d int) bool {
+			if v == ssa.Value(ht) {
+				return true
+			}
+			if d > 4 {
+				return false
+			}
+			switch y := v.(type) {
+			case *ssa.Convert:
+				return derived(y.X, d+1)
+			case *ssa.ChangeType:
+				return derived(y.X, d+1)
+			}
+			return false
+		}
+		for _, f := range an.WithClosures(fn) {
+			an.Instrs(f, func(i ssa.Instruction) {
+				bo, ok := i.(*ssa.BinOp)
+				if !ok || (bo.Op != token.AND && bo.Op != token.AND_NOT) {
+					return
+				}
+				if k, isC := an.ConstOf(bo.Y); isC && derived(bo.X, 0) {
+					masks[k.String()] = true
+				} else if k, isC := an.ConstOf(bo.X); isC && derived(bo.Y, 0) {
+					masks[k.String()] = true
+				}
+			})
+		}
+		var ms []string
+		for m := range masks {
+			ms = append(ms, m)
+		}
+		sort.Strings(ms)
+		got := strings.Join(ms, " ")
+		r.Check(got == x.want, rule, "hash-type-masks/"+x.fn, p.Pos(fn.Pos()), "the hash-type byte is decoded with the masks "+x.want, "the hash-type byte is decoded with the masks ["+got+"], consensus uses ["+x.want+"]")
 	}
 }
